@@ -330,13 +330,46 @@ def check_records(ctx, w: World):
 
 def check_a6_prefix_lengths(ctx, w: World):
     """The A6 RDATA is  prefixLen | suffix (as many octets as the class derives from prefixLen) | prefix name (absent for prefixLen 0): the writer and
-    the reader must agree on the two conditional fields for EVERY prefix length - 129 values, all evaluated, each followed by a sentinel record."""
+    the reader must agree on the two conditional fields for EVERY prefix length.  All 129 values are evaluated on the record's own encode/decode (RDATA
+    as expected, the reader consumes exactly the RDATA, the record comes back equal); the boundary values are evaluated once more inside a whole message
+    followed by another record."""
     bad: Dict[int, str] = {}
     pre = b"pre.example.org"
-    for p in range(129):
+    wire_pre = b"".join(bytes([len(l)]) + l for l in pre.split(b".")) + b"\x00"
+    cls = w.C("Record_A6")
+    ev = w.ev()
+
+    def sample(p):
         nb = (128 - p) // 8          # the class keeps whole octets only (derived field `bytes`)
         suffix = b"\x00" * (16 - nb) + bytes(range(0xA1, 0xA1 + nb))
-        payload = Inst(w.C("Record_A6"), prefixLen=p, suffix=suffix, prefix=w.name(pre if p else b""), bytes=nb)
+        return nb, suffix, Inst(cls, prefixLen=p, suffix=suffix, prefix=w.name(pre if p else b""), bytes=nb, ttl=None), bytes([p]) + suffix[16 - nb:] + (wire_pre if p else b"")
+
+    for p in range(129):
+        nb, suffix, payload, want = sample(p)
+        buf = io.BytesIO()
+        k, v = w.run("Record_A6.encode", lambda: ev.method(payload, "encode", [buf, None]))
+        rdata = buf.getvalue()
+        if k != "value" or rdata != want:
+            bad[p] = (f"encode() {'raises ' + str(v) if k != 'value' else 'writes'} {len(rdata)} octets {_short(rdata)}, expected {len(want)} (prefix length, {nb} suffix octets"
+                      f"{', prefix name' if p else ''})")
+            continue
+        k, back = w.run("Record_A6()", lambda: ev.construct(cls, [], {}))
+        if k != "value":
+            _fail(f"Record_A6() cannot be constructed: {back}")
+        rd = io.BytesIO(rdata + b"\x7f\x00\x00\x01")
+        k, v = w.run("Record_A6.decode", lambda: ev.method(back, "decode", [rd, len(rdata)]))
+        if k != "value":
+            bad[p] = f"its own RDATA ({len(rdata)} octets) is refused by decode(): {v}"
+        elif rd.tell() != len(rdata):
+            bad[p] = f"decode() consumes {rd.tell()} of the {len(rdata)} RDATA octets: the following record is displaced"
+        else:
+            d = w.diff(payload, back)
+            if d:
+                bad[p] = d
+    for p in (0, 1, 7, 8, 9, 64, 119, 120, 121, 127, 128):
+        if p in bad:
+            continue
+        nb, suffix, payload, want = sample(p)
         msg = w.message(answer=1, answers=[w.rr(b"host.example.org", payload, ttl=60), w.rr(b"tail.example.org", Inst(w.C("Record_A"), address=b"\x7f\x00\x00\x01"), ttl=1)])
         d, wire, back = _encode_decode(w, msg)
         if d:
@@ -348,13 +381,12 @@ def check_a6_prefix_lengths(ctx, w: World):
             bad[p] = f"an independent parser rejects the encoding: {e}"
             continue
         a = pm["sections"][0]
-        want = bytes([p]) + suffix[16 - nb:] + ((b"".join(bytes([len(l)]) + l for l in pre.split(b".")) + b"\x00") if p else b"")
         if len(a) != 2 or a[0][4] != want or a[1][4] != b"\x7f\x00\x00\x01":
-            bad[p] = (f"the RDATA is {len(a[0][4]) if a else '?'} octets {_short(a[0][4]) if a else ''}, expected {len(want)} (prefix length, {nb} suffix octets"
-                      f"{', prefix name' if p else ''}), or the following record is displaced")
+            bad[p] = (f"inside a message the RDATA is {len(a[0][4]) if a else '?'} octets {_short(a[0][4]) if a else ''}, expected {len(want)}, or the following record is displaced")
     ks = sorted(bad)
     ctx.check(not bad, "roundtrip/a6-prefix-lengths", f"{Q}.Record_A6 | <every prefix length 0..128>",
-              (f"prefix length {ks[0]}: {bad[ks[0]]} ({len(ks)} of 129 prefix lengths fail: {ks[0]}..{ks[-1]})") if bad else "", detail="129 prefix lengths, each inside a message with a following record")
+              (f"prefix length {ks[0]}: {bad[ks[0]]} ({len(ks)} of 129 prefix lengths fail: {ks[0]}..{ks[-1]})") if bad else "",
+              detail="129 prefix lengths on the record's own codec; 11 boundary values again inside a message with a following record")
 
 
 def check_header(ctx, w: World):
